@@ -16,6 +16,7 @@ import (
 	"encoding/base64"
 	"encoding/json"
 	"fmt"
+	"html"
 	"io"
 	"log"
 	"math/rand"
@@ -314,10 +315,7 @@ func (w *world) observe(rec *httptest.ResponseRecorder, ran bool) obsReply {
 	return o
 }
 
-func htmlUnescape(s string) string {
-	r := strings.NewReplacer("&#34;", `"`, "&#39;", "'", "&amp;", "&", "&lt;", "<", "&gt;", ">", "&#43;", "+", "&#61;", "=")
-	return r.Replace(s)
-}
+func htmlUnescape(s string) string { return html.UnescapeString(s) }
 
 func ocTerm(c obsCookie) string {
 	return fmt.Sprintf("{| oc_name := %s; oc_kind := %d; oc_a := %s; oc_b := %s; oc_c := %s; oc_iat := %s; oc_exp := %s; oc_httponly := %s; oc_secure := %s; oc_path := %s; oc_max_age := %s |}",
@@ -697,8 +695,10 @@ func runHistory(cfg worldCfg, hist []absStep, seed int64) (res execResult) {
 			relay := ""
 			switch {
 			case st.Relay == "faithful":
+				// what a real IdP echoes: the RelayState this library's IdentityProvider recovered from the
+				// emitted redirect URL's query (or the POST form field) when it parsed the AuthnRequest
 				if a.flow >= 0 && flows[a.flow] != nil {
-					relay = flows[a.flow].index
+					relay = a.relay
 				}
 			case strings.HasPrefix(st.Relay, "flow:"):
 				var id int
@@ -1014,7 +1014,7 @@ func randomHistory(c *Ctx, cfg worldCfg, maxLen int) []absStep {
 		case k < 5 || len(g.starts) == 0: // start
 			st := absStep{Op: "start", URL: pageURLs[r.Intn(len(pageURLs))]}
 			if cfg.CustomRelay && r.Intn(3) != 0 {
-				st.Relay0 = fmt.Sprintf("rs-%d-%d", len(g.starts), r.Intn(1000))
+				st.Relay0 = fmt.Sprintf(customRelayTemplates[r.Intn(len(customRelayTemplates))], len(g.starts)*1000+r.Intn(1000))
 			}
 			g.starts = append(g.starts, g.add(st))
 		case k < 9: // IdP answers some flow (or unsolicited)
@@ -1078,6 +1078,11 @@ func randomHistory(c *Ctx, cfg worldCfg, maxLen int) []absStep {
 	}
 	return g.steps
 }
+
+// Values a custom RelayStateFunc may return.  The value becomes part of a cookie NAME
+// (prefix ++ index), so only RFC 7230 token characters survive http.SetCookie; within
+// those, every character that means something in a URL query or an HTML attribute.
+var customRelayTemplates = []string{"rs-%d", "a+b+%d", "q&r&%d", "p%%41-%d", "h#frag%d", "%%2B%d%%26", "m!$'*^`|~.%d", "a+&#%%%d", "x&RelayState%d", "1+1&2%%%d#"}
 
 // ---------- directed histories ----------
 func tr(step int) absCookie { return absCookie{Src: "tracking", Step: step, Name: "own"} }
@@ -1150,6 +1155,10 @@ func directedHistories(cfg worldCfg) map[string][]absStep {
 	h["page-with-tracking-token-as-session"] = mk(start("/protected/a?x=1"), absStep{Op: "page", URL: "/protected/b", Jar: []absCookie{{Src: "tracking", Step: 0, Name: "session"}}})
 	h["https-request-on-acs"] = mk(start("/protected/a?x=1"), answer(0, "alice"), absStep{Op: "deliver", Answer: 1, Relay: "faithful", Jar: []absCookie{tr(0)}, HTTPS: true})
 	if cfg.CustomRelay {
+		for i, v := range []string{"a+b", "q&r", "p%41", "h#frag", "%2B%26", "m!$'*^`|~.", "a+&#%", "x&RelayState", "+", "&", "%", "#"} {
+			h[fmt.Sprintf("custom-relay-metachar-%02d", i)] = mk(absStep{Op: "start", URL: "/protected/a?x=1", Relay0: v}, absStep{Op: "start", URL: "/protected/b", Relay0: v + "2"},
+				answer(1, "alice"), answer(0, "bob"), deliver(2, "faithful", tr(0), tr(1)), deliver(3, "faithful", tr(0), tr(1)))
+		}
 		h["custom-relay-state"] = mk(absStep{Op: "start", URL: "/protected/a?x=1", Relay0: "my-relay-1"}, absStep{Op: "start", URL: "/protected/b", Relay0: ""}, answer(0, "alice"), answer(1, "alice"),
 			deliver(2, "faithful", tr(0), tr(1)), deliver(3, "faithful", tr(0), tr(1)))
 	}
@@ -1273,6 +1282,7 @@ func runC17(c *Ctx) {
 		{HTTPS: true, Post: true, MidS: 90},
 		{HTTPS: false, Post: true, MidS: 30, DefaultRedirect: "/home"},
 		{HTTPS: true, CustomRelay: true, MidS: 90},
+		{HTTPS: false, Post: true, CustomRelay: true, MidS: 90},
 		{HTTPS: true, MidS: 45, CookieName: "sess", DefaultRedirect: "/welcome?x=1"},
 		{HTTPS: true, AllowIDP: true, MidS: 90},
 	}
